@@ -12,6 +12,14 @@ CHECKS = {
              text='O3.1: the decoder\'s accept set, computed as a finite set of byte boxes by interval abstract interpretation of utf8_decode_next/get/cont, equals RFC 3629\'s well-formed table in both directions for 0-4 available bytes. O3.2: is_6531_local read through the decoder summary equals the 5321 specification automaton with one extra symbol for a well-formed non-ASCII character, for all lengths.',
              note='Trusts clang-14 AST, lib/decoder_ai.py and lib/scanex.py evaluators, spec/localpart.py. Assumes end - start <= INT_MAX. The one-symbol abstraction of non-ASCII characters is checked (no comparison with a constant above 0x7f in the scanner).',
              ref='DESIGN.md section 3 / C03, section 2.3 (6, 7)'),
+ 'C04': dict(level='model_checking', technique='prologue table over length cells + automaton extraction of the scan loop vs label-sequence DFA + exhaustive abstract evaluation of short strings; path rule for the IDN pipeline',
+             text='is_ascii_domain is decided for every string: lengths 0-3 exhaustively over the byte classes (whole function evaluated abstractly), the length pre-checks for n >= 4 as a table over all cells cut by the constants the code compares the length with (253/254/255 rule and root-dot stripping), and the scanning loop as an extracted automaton compared with the label DFA (1-63 LDH, hyphen placement, single dots, not all-numeric) for the unstripped and stripped range, all lengths. The 6531 clause is a path rule: every backend feeds the converter output to is_ascii_domain and returns its failure unchanged.',
+             note='Trusts clang-14 AST, lib/scanex.py, spec/domain.py. label_length saturation at 64 is justified by a verified usage pattern (++, = const, compare with const). Assumes the byte after the domain is NUL. The IDN converter itself is not analysed.',
+             ref='DESIGN.md section 3 / C04'),
+ 'C12': dict(level='model_checking', technique='product exploration of the four extracted local-part automata (code agreement, language inclusion) + path-summary twin agreement of the e-mail functions',
+             text='No specification is involved: the four scanners, extracted from the current source, are explored jointly on every ASCII string without DQUOTE/backslash (same return code required) and 5321 vs 822 on all bytes (inclusion); the three ASCII e-mail functions must have identical path summaries up to the local-part callee and is_6531_email (3 backends) must equal them outside the host-name branch, which makes domain verdict, class and flags mode-independent.',
+             note='Trusts clang-14 AST, lib/scanex.py, lib/cfgpaths.py. The IDN exemption for mode 6531 is structural (C10).',
+             ref='DESIGN.md section 3 / C12'),
  'C08': dict(level='other', technique='switch-arm table extraction + path summaries over the AST (3 backends)',
              text='Complete for the statement: every class has exactly one arm testing exactly its own single-bit constant, the switch is reached only for rc > 0, and the tld_check gate precedes every TLD-related call; decided on all paths of eav_is_email/eav_init in all three backends and of the six gate sites. The 2^11 masks collapse to 9 single-bit tests, so no enumeration of inputs is needed.',
              note='Trusts clang-14 AST, Engine A path enumeration (lib/cfgpaths.py). Not decided here: that the class handed to the switch is the right one (C07/C09). idn and idnkit backends are parsed against declaration-only stub headers.',
